@@ -39,6 +39,21 @@ def rule_one_result(ctx, rep):
     lp = loops[0]
     rets = [n.value for n in walk_no_nested(fn.node) if isinstance(n, ast.Return) and n.value is not None]
     out_name = rets[0].id if len(rets) == 1 and isinstance(rets[0], ast.Name) else None
+    # results collected in a dict and returned as list(D.values()): one per codemod only if keyed by the (unique) codemod id
+    from ..selection import Describer
+
+    if len(rets) == 1 and out_name is None:
+        sel = Describer(ctx, fn).describe(rets[0])
+        if sel.kind == "dictvals":
+            lv = lp.target.id if isinstance(lp.target, ast.Name) else None
+            bad = [i for i in sel.insertions if not (isinstance(i.key, ast.Attribute) and i.key.attr == "id" and isinstance(i.key.value, ast.Name) and i.key.value.id == lv)]
+            inside = all(any(x is i.node for x in ast.walk(lp)) for i in sel.insertions)
+            ctor_ok = all(isinstance(r.expand(i.value), ast.Call) and r.callee_qname(r.expand(i.value)) == RESULT for i in sel.insertions)
+            fa_d = FlowAnalysis(lp, lambda c: None, body=lp.body)
+            rep.check("R-ONE-RESULT-PER-CODEMOD", fn.qname, fn.loc(lp), bool(sel.insertions) and not bad and inside and ctor_ok and len(sel.insertions) == 1, "one-append",
+                      "results are collected in a dict that is not keyed by the codemod id (names are shared between origins: a later codemod overwrites an earlier one's "
+                      "entry), or an iteration stores something other than exactly one Result")
+            return
 
     def ev(call):
         if last_attr(call.func) == "append" and isinstance(call.func, ast.Attribute) and unparse(call.func.value) == out_name:
